@@ -18,8 +18,9 @@ def add(pid, technique, text, note, ref):
 
 add("C02",
     "Hypothesis PBT: generated table/built-in costs vs un-pruned optimal-partitioning reference model",
-    "Generated-input search (Hypothesis, sharded over 16 processes): user-defined integer table costs "
-    "(pair-interaction, super-additive closure, integer-data L2) and the built-in costs on structured data; "
+    "Generated-input search (Hypothesis, sharded over 16 processes): user-defined table costs (pair-interaction, "
+    "super-additive closure of a signed table, integer-data L2; float- or integer-typed output; integer and "
+    "non-integer penalties), the built-in costs and a user-defined L1 cost on structured data in several units; "
     "every prefix score, the final score and the returned segmentation are compared with an O(n^2) un-pruned "
     "dynamic programme that is itself self-tested against exhaustive enumeration. Bounded exploration "
     "(n<=16 tables, n<=100 data), not a proof.",
@@ -39,7 +40,8 @@ add("C01",
     "DESIGN.md section 4, C01")
 add("C03",
     "Hypothesis PBT: generated table/built-in savings and penalties vs un-pruned CAPA dynamic-programme reference model",
-    "Generated integer table savings (|sum u|, max(0,sum u), sub-additive closure) with CAPA and with MVCAPA under user penalty "
+    "Generated integer table savings (|sum u| or max(0,sum u) minus a per-sample charge, sub-additive closure of a signed table - "
+    "savings may be negative) with CAPA and with MVCAPA under user penalty "
     "callables (betas zero/equal/arbitrary), and built-in savings with all penalty families on structured data; every cumulative "
     "score, the re-evaluated reported anomalies, interval well-formedness and ignore_point_anomalies are compared with an un-pruned "
     "DP that is self-tested against exhaustive enumeration. Bounded exploration (n<=14 tables, n<=100 data).",
@@ -67,9 +69,11 @@ add("C04",
     "DESIGN.md section 4, C04")
 add("C13",
     "exhaustive enumeration of the integer box [-2,n+2]^k for 17 scorers + Hypothesis-generated malformed arrays; validity predicate and definitional values",
-    "Every integer tuple of the box (k=2,3,4; n 4..6, thorough up to 8; p 1..2) for 17 scorers is passed to evaluate: invalid "
-    "tuples must raise ValueError (not IndexError, not a value), valid ones must be accepted and equal the definitional value; "
-    "plus generated float/bool/wrong-width/0-row/3-D/list/row-vector arguments and mixed batches. The box facet is exhaustive.",
+    "Every integer tuple of the box (k=2,3,4; n 4..6, thorough up to 8; p 1..2) for 17 scorers is passed to evaluate as int64 and, "
+    "where non-negative, also as uint64/uint8/int32: invalid tuples must raise ValueError (not IndexError, not a value), valid "
+    "ones must be accepted and equal the definitional value in every dtype; plus generated float/bool/wrong-width/0-row/3-D/"
+    "list/row-vector/flat-multiple arguments, mixed batches, descending unsigned rows, rows overflowing narrow signed dtypes "
+    "and pandas containers. The box facet is exhaustive.",
     "Trusted: the validity predicate written from the property and the documented minimum sizes (1, 2, p+1); fixed "
     "well-conditioned data per (n,p).",
     "DESIGN.md section 4, C13")
